@@ -1,6 +1,7 @@
 package sim
 
 import (
+	"github.com/xuperchain/xupercore/protos"
 	"os"
 	"xsim/simkv"
 
@@ -67,6 +68,14 @@ func GenCoopPlan(rt *rapid.T, tier string) *CoopPlan {
 	if tier == "thorough" {
 		maxAt = 900
 	}
+	// selection duel (one plan in five, drawn after the requests so that earlier draws are unchanged):
+	// two locking selections on one address, at least one through the by-size entry, preempted early
+	if rapid.IntRange(0, 4).Draw(rt, "duel") == 4 {
+		a := rapid.IntRange(0, 2).Draw(rt, "duela")
+		pl.Reqs = []CoopReq{{Kind: "select", A: a, B: 2, Amt: rapid.IntRange(0, 20).Draw(rt, "duelamt")},
+			{Kind: "select", A: a, B: rapid.SampledFrom([]int{2, 0}).Draw(rt, "duelb"), Amt: rapid.IntRange(0, 20).Draw(rt, "duelamt2")}}
+		maxAt = 150
+	}
 	np := rapid.IntRange(0, 4).Draw(rt, "npre")
 	for i := 0; i < np; i++ {
 		pl.Preempts = append(pl.Preempts, Preempt{At: rapid.IntRange(0, maxAt).Draw(rt, "at"), To: rapid.IntRange(0, 4).Draw(rt, "to")})
@@ -81,11 +90,12 @@ func GenCoopPlan(rt *rapid.T, tier string) *CoopPlan {
 }
 
 type preparedReq struct {
-	req   *CoopReq
-	tx    *lpb.Transaction
-	block *lpb.InternalBlock
-	addr  string
-	need  *big.Int
+	req    *CoopReq
+	tx     *lpb.Transaction
+	block  *lpb.InternalBlock
+	addr   string
+	need   *big.Int
+	bySize bool
 }
 
 // execReq executes a prepared request on a node and returns a canonical outcome.
@@ -100,8 +110,16 @@ func execReq(n *Node, p *preparedReq) string {
 		}
 		return "admitted"
 	case "select":
-		ins, _, tot, err := n.S.SelectUtxos(p.addr, p.need, true, false)
-		if err != nil {
+		var ins []*protos.TxInput
+		var tot *big.Int
+		var err error
+		if p.bySize {
+			// the "merge utxo" entry: as many outputs as fit a transaction, locked
+			ins, _, tot, err = n.S.SelectUtxosBySize(p.addr, true, false)
+		} else {
+			ins, _, tot, err = n.S.SelectUtxos(p.addr, p.need, true, false)
+		}
+		if err != nil || len(ins) == 0 {
 			return "select:err"
 		}
 		var ks []string
@@ -180,6 +198,10 @@ func ExecCoop(plan *CoopPlan, rc *RunCtx) *Violation {
 			p.need = new(big.Int).Div(new(big.Int).Mul(bal, big.NewInt(int64(1+rq.Amt%4))), big.NewInt(6))
 			if p.need.Sign() == 0 {
 				p.need = big.NewInt(1)
+			}
+			if rq.B%3 == 2 {
+				p.bySize = true
+				p.need = big.NewInt(1) // any non-empty set of free outputs is admissible
 			}
 		case "play":
 			// the competing block comes from node 1, which holds one transaction of its own
